@@ -12,7 +12,7 @@ from .. import ref
 from ..lab import CONTENTS, MD5, make_odb, put_raw
 from ..world import World, digest_obj
 
-D = {"a": "x", "s/b": "y", "s/t/c": "z"}
+D = {"a": "x", "s/b": "y", "s/t/c": "z", "u/v/w/leaf": "w"}   # u, u/v, u/v/w hold no file themselves
 N = {"k": "w", "m/q": "x"}
 
 
@@ -64,8 +64,10 @@ def make_index(kind, backend, w, odb, tag):
 
 TWIN_KEYS = [("f",), ("e",), ("e", "g"), ("d",), ("e", "n"),
              ("d", "a"), ("d", "s"), ("d", "s", "b"), ("d", "s", "t"), ("d", "s", "t", "c"),
+             ("d", "u"), ("d", "u", "v"), ("d", "u", "v", "w"), ("d", "u", "v", "w", "leaf"),
              ("e", "n", "k"), ("e", "n", "m"), ("e", "n", "m", "q")]
-DIR_KEYS = [(), ("e",), ("d",), ("e", "n"), ("d", "s"), ("d", "s", "t"), ("e", "n", "m")]
+DIR_KEYS = [(), ("e",), ("d",), ("e", "n"), ("d", "s"), ("d", "s", "t"), ("e", "n", "m"), ("d", "u"),
+            ("d", "u", "v")]
 ABSENT = [("zz",), ("d", "zz"), ("d", "a", "zz"), ("e", "n", "zz"), ("d", "s", "zz")]
 
 FILTERS = {
@@ -96,12 +98,12 @@ def queries():
         q.append(("view-ls", f, ()))
         q.append(("view-ls", f, ("d",)))
         q.append(("view-ls", f, ("e", "n")))
-    for p in ("/", "/d", "/d/s", "/e/n", "/e/n/m", "/f", "/zz", "/d/s/t"):
+    for p in ("/", "/d", "/d/s", "/e/n", "/e/n/m", "/f", "/zz", "/d/s/t", "/d/u", "/d/u/v/w"):
         q.append(("fs-ls", p))
         q.append(("fs-info", p))
     q.append(("fs-find", "/"))
     q.append(("fs-find", "/d/s"))
-    for p in ("/f", "/d/a", "/d/s/t/c", "/e/n/m/q", "/e/g", "/d/zz"):
+    for p in ("/f", "/d/a", "/d/s/t/c", "/e/n/m/q", "/e/g", "/d/zz", "/d/u/v/w/leaf"):
         q.append(("fs-cat", p))
         q.append(("fs-get", p))
         q.append(("fs-checksum", p))
@@ -210,10 +212,10 @@ def expected_extra(q):
         f = FILTERS[q[1]]
         return sorted(k for k in TWIN_KEYS if f(k))
     if q[0] in ("fs-cat", "fs-get"):
-        want = {"/f": "x", "/d/a": "x", "/d/s/t/c": "z", "/e/n/m/q": "x", "/e/g": "y"}
+        want = {"/f": "x", "/d/a": "x", "/d/s/t/c": "z", "/e/n/m/q": "x", "/e/g": "y", "/d/u/v/w/leaf": "w"}
         return CONTENTS[want[q[1]]] if q[1] in want else ("EXC", "FileNotFoundError")
     if q[0] == "fs-checksum":
-        want = {"/f": "x", "/d/a": "x", "/d/s/t/c": "z", "/e/n/m/q": "x", "/e/g": "y"}
+        want = {"/f": "x", "/d/a": "x", "/d/s/t/c": "z", "/e/n/m/q": "x", "/e/g": "y", "/d/u/v/w/leaf": "w"}
         return MD5[want[q[1]]] if q[1] in want else ("EXC", "FileNotFoundError")
     if q[0] == "diff":
         return []
@@ -258,7 +260,59 @@ def run_seq(seq, backend):
     return viol
 
 
+def storage_index_case(case):
+    """The adaptor reads bytes from storage even when a storage carries an existence index that is empty or stale."""
+    import os
+
+    from dvc_data.fs import DataFileSystem
+    from dvc_data.index import DataIndex, ObjectStorage
+
+    res = {"n": 0, "trans": 0, "states": [], "outcomes": set(), "nontrivial": set(), "viol": [],
+           "vac": {"storage_index_reads": 0}}
+    want = {"/f": "x", "/d/a": "x", "/d/s/t/c": "z", "/e/n/m/q": "x", "/e/g": "y", "/d/u/v/w/leaf": "w"}
+    for scen in ("empty-cache-index", "stale-cache-index-remote-has-it"):
+        with World() as w:
+            cache = make_odb("local", w.p("cache"))
+            remote = make_odb("base", w.p("remote"))
+            fill(cache)
+            fill(remote)
+            idx = make_index("lazy", case["backend"], w, cache, "lazy")
+            exist_idx = DataIndex()
+            if scen.startswith("stale"):
+                # the existence index claims every object, but the cache lost one file object
+                for oid in list(cache.all()):
+                    exist_idx[cache._oid_parts(oid)] = None
+                gone = cache.oid_to_path(MD5["z"])
+                os.chmod(gone, 0o644)
+                os.unlink(gone)
+            idx.storage_map.add_cache(ObjectStorage((), cache, index=exist_idx))
+            idx.storage_map.add_remote(ObjectStorage((), remote))
+            fs = DataFileSystem(index=idx)
+            for path, c in want.items():
+                res["n"] += 1
+                res["trans"] += 1
+                res["vac"]["storage_index_reads"] += 1
+                res["states"].append(digest_obj((scen, path, case["backend"])))
+                res["nontrivial"].add(digest_obj((scen, path, case["backend"])))
+                try:
+                    got = fs.cat_file(path)
+                except Exception as e:  # noqa: BLE001
+                    got = ("EXC", type(e).__name__)
+                if got != CONTENTS[c]:
+                    res["viol"].append((f"adaptor-does-not-serve-bytes-held-in-storage/{scen}",
+                                        f"{path}: {got!r:.80}", {"storage_index": True, "backend": case["backend"]}))
+            try:
+                idx.close()
+            except Exception:  # noqa: BLE001
+                pass
+    res["outcomes"] = [len(res["viol"])]
+    res["nontrivial"] = sorted(res["nontrivial"])
+    return res
+
+
 def run_case(case):
+    if case.get("storage_index"):
+        return storage_index_case(case)
     res = {"n": 0, "trans": 0, "states": [], "outcomes": set(), "nontrivial": set(), "viol": [],
            "vac": {"sequences": 0, "cat_reads": 0}}
     sigs = set()
@@ -294,6 +348,9 @@ def _t(q):
 
 
 def replay(case):
+    if case.get("storage_index"):
+        r = storage_index_case(case)
+        return [(s_, d) for s_, d, _c in r["viol"]]
     return run_seq([tuple(_t(q)) for q in case["seq"]], case["backend"])
 
 
@@ -301,7 +358,7 @@ def run(ctx):
     qs = queries()
     ctx.rule = (
         f"E2: lazy index (files, an explicit directory, unloaded directory objects at depth 1 and 2) vs its "
-        f"reference-built explicit twin; quick: every sequence of length <= 2 over {len(qs)} queries (get, info, "
+        f"reference-built explicit twin; quick: every sequence (q1, q2) with q1 from the load-triggering queries and every third other query, q2 from all {len(qs)} queries; thorough: all pairs (get, info, "
         "ls, iteritems deep/shallow, hash-only diff against the twin in both orders, view iteration / ls with 7 "
         "prefix-closed filters, fs adaptor ls/info/find/cat, load twice); thorough: additionally every sequence "
         f"(t1, t2, q) with t1, t2 from {len(TRIGGERS)} load-triggering queries; both backends (pygtrie, SQLite); "
@@ -315,11 +372,13 @@ def run(ctx):
         "is iterated through iteritems()",
         "the loaded flag is excluded from the comparison",
     ]
-    ctx.require("sequences", "cat_reads")
+    ctx.require("sequences", "cat_reads", "storage_index_reads")
     cs = []
     for backend in ("mem", "sqlite"):
+        cs.append({"storage_index": True, "backend": backend})
         cs.append({"prefix": [], "backend": backend})
-        for q in qs:
+        firsts = qs if ctx.tier == "thorough" else list(TRIGGERS) + [q for q in qs[::3] if q not in TRIGGERS]
+        for q in firsts:
             cs.append({"prefix": [list(q)], "backend": backend})
         if ctx.tier == "thorough":
             for a in TRIGGERS:
